@@ -1,0 +1,17 @@
+//go:build verif
+
+package ble
+
+// VerifHandle runs the advertisement handler on the given manufacturer data without BlueZ.
+// Only compiled with the build tag "verif".
+func VerifHandle(cfg Config, dev DeviceConfig, rawBytes []uint8) {
+	ble := &BleStruct{cfg: cfg}
+	ble.handleNewManufacturerData(dev, rawBytes)
+}
+
+// VerifGetDeviceConfig runs the device lookup by BlueZ address without BlueZ.
+// Only compiled with the build tag "verif".
+func VerifGetDeviceConfig(cfg Config, bluezAddr string) DeviceConfig {
+	ble := &BleStruct{cfg: cfg}
+	return ble.getDeviceConfig(bluezAddr)
+}
